@@ -457,12 +457,16 @@ def nat_sweep(seed, count):
             if it == 0 and (seed % 4 == 0 or count > 3):
                 msgs.extend(_large_aggregate(rng, name if name in ("triclinic", "monoclinic") else "triclinic"))
             perm = rng.permutation(n)
-            if abs(float(D.misorientation_index(O[perm], s)) - m) > 1e-9:
+            # quaternions are stored as float32: a pair whose angle sits on a bin edge may change bin (1/npairs of the density);
+            # two such flips are tolerated, a genuine dependence moves many pairs
+            flip_tol = max(1e-9, 2.0 / (n * (n - 1) / 2))
+            if abs(float(D.misorientation_index(O[perm], s)) - m) > flip_tol:
                 msgs.append(f"{name}: M-index depends on the order of the grains")
             if name in ENFORCED_FRAME:
                 Q = R.random(random_state=int(rng.integers(1 << 30))).as_matrix()
-                if abs(float(D.misorientation_index(O @ Q.T, s)) - m) > 1e-6:
-                    msgs.append(f"{name}: M-index changes under a rotation of the sample frame")
+                dm = abs(float(D.misorientation_index(O @ Q.T, s)) - m)
+                if dm > max(1e-6, flip_tol):
+                    msgs.append(f"{name}: M-index of a {kind} texture of {n} grains changes by {dm:.3g} under a rotation of the sample frame")
             if kind == "single" and name in ("triclinic", "monoclinic", "orthorhombic") and abs(m - 1) > 1e-3:
                 msgs.append(f"{name}: single-orientation texture gives {m:.4f}, not 1")
             if kind == "uniform" and n >= 90 and name in ("triclinic", "orthorhombic") and m > 0.15:
@@ -541,7 +545,7 @@ def _large_aggregate(rng, name):
     out = _hist_vs_reference(O, s, name + f" (n={n})")
     m = float(D.misorientation_index(O, s))
     m2 = float(D.misorientation_index(O[rng.permutation(n)], s))
-    if abs(m - m2) > 1e-9:
+    if abs(m - m2) > max(1e-9, 2.0 / (n * (n - 1) / 2)):
         out.append(f"{name}: M-index of {n} grains depends on the order of the grains ({m:.4f} vs {m2:.4f})")
     return out
 
